@@ -65,6 +65,12 @@ def run():
         if replay:
             print("note: the scenario in %s is re-run as part of the whole check of %s (its scenarios are regenerated from the specification)" % (replay, prop))
         return m.main()
+    if prop == "C01":
+        from . import check_column as m
+
+        if replay:
+            print("note: the scenario in %s is re-run as part of the whole check of %s (its scenarios are regenerated from the specification)" % (replay, prop))
+        return m.main()
     if prop == "C09":
         from . import check_profiles as m
 
